@@ -46,6 +46,8 @@ STANDIN_NOTE = {
     **{p: 'BOUNDED STAND-IN (labelled bounded, never counted as proved): native panic injection at every call index / every panicking element for N <= 4 on the unwinding paths no verifier here can execute (standin/src/main.rs); ' for p in ('C04', 'C05', 'C09', 'C16')},
     'C15': 'BOUNDED STAND-IN (labelled bounded, never counted as proved): the boxed constructors and O(1) conversions build / convert a 4 MiB array on a 256 KiB-stack thread; native panic injection on unwinding paths for N <= 4 (standin/src/main.rs); ',
     'C14': 'BOUNDED STAND-IN (labelled bounded, never counted as proved): the chunked strategy (N > 1024, beyond CBMC) executed natively on the real code for N in {1024, 1025, 2047, 2048, 2049, 3000, 4096}, all / boundary precisions, without and with feature faster-hex (standin/src/main.rs); ',
+    'C13': 'BOUNDED STAND-IN (labelled bounded, never counted as proved): Debug of the array versus its slice under {:#?} and ten other flag sets (PadAdapter does not terminate in CBMC), executed natively for six element types, N <= 5 (standin/src/main.rs); ',
+    'C06': 'BOUNDED STAND-IN (labelled bounded, never counted as proved): Debug of the iterator under {:#?} and four other flag sets at every (front, back) position for N <= 5, executed natively (standin/src/main.rs); ',
     'C20': 'BOUNDED STAND-IN (labelled bounded, never counted as proved): a panic inside element expression k of the list forms (an unwinding path) and box_arr![x; N] with a Clone-not-Copy element and a panicking clone, executed natively with a drop ledger (standin/src/main.rs); ',
     **{p: 'BOUNDED STAND-IN (labelled bounded, never counted as proved): the ADDRESS of zero-extent views (zero-sized elements, N = 0) compared natively - CBMC does not model the address of a zero-sized place, so engine K guards those assertions (standin/src/main.rs); ' for p in ('C02', 'C10', 'C11')},
 }
